@@ -27,6 +27,13 @@ Proof.
   unfold int64. lia.
 Qed.
 
+Lemma ord0 f : ord_spec 0 f = sec_of f.
+Proof. reflexivity. Qed.
+Lemma oford0 n : of_ord_spec 0 n = cos n.
+Proof. reflexivity. Qed.
+Lemma align0 f : align_spec 0 f = f.
+Proof. reflexivity. Qed.
+
 Lemma int64_SB t : int64 t -> - SB <= t <= SB.
 Proof. unfold int64, min64, max64, SB. lia. Qed.
 
@@ -34,9 +41,9 @@ Lemma plus_cos a n : - SB <= a <= SB -> int64 n -> - SB <= a + n <= SB ->
   plus64 0 (cos a) n = OK (cos (a + n)).
 Proof.
   intros Ha Hn Hr.
-  pose proof (plus_refines_lemma 0 (cos a) n ltac:(lia) (valid_cos a) eq_refl
+  pose proof (plus_refines_lemma 0 (cos a) n ltac:(lia) (valid_cos a) (align0 _)
                 (year_ok a Ha) Hn) as P.
-  cbn [ord_spec of_ord_spec] in P. rewrite sec_of_cos in P.
+  rewrite ord0, oford0, sec_of_cos in P.
   apply P. apply year_ok; exact Hr.
 Qed.
 
@@ -44,9 +51,9 @@ Lemma minus_cos a n : - SB <= a <= SB -> int64 n -> - SB <= a - n <= SB ->
   minus64 0 (cos a) n = OK (cos (a - n)).
 Proof.
   intros Ha Hn Hr.
-  pose proof (minus_refines_lemma 0 (cos a) n ltac:(lia) (valid_cos a) eq_refl
+  pose proof (minus_refines_lemma 0 (cos a) n ltac:(lia) (valid_cos a) (align0 _)
                 (year_ok a Ha) Hn) as P.
-  cbn [ord_spec of_ord_spec] in P. rewrite sec_of_cos in P.
+  rewrite ord0, oford0, sec_of_cos in P.
   apply P. apply year_ok; exact Hr.
 Qed.
 
@@ -57,18 +64,18 @@ Lemma diff_l cs b : valid_fields cs = true -> int64 (fy cs) -> - SB <= b <= SB -
   int64 (sec_of cs - b) -> difference64 0 cs (cos b) = OK (sec_of cs - b).
 Proof.
   intros V I Hb Hd.
-  pose proof (difference_refines_lemma 0 cs (cos b) ltac:(lia) V (valid_cos b) eq_refl eq_refl
+  pose proof (difference_refines_lemma 0 cs (cos b) ltac:(lia) V (valid_cos b) (align0 _) (align0 _)
                 I (year_ok b Hb)) as P.
-  cbn [ord_spec] in P. rewrite sec_of_cos in P. apply P. exact Hd.
+  rewrite !ord0, sec_of_cos in P. apply P. exact Hd.
 Qed.
 
 Lemma diff_r cs b : valid_fields cs = true -> int64 (fy cs) -> - SB <= b <= SB ->
   int64 (b - sec_of cs) -> difference64 0 (cos b) cs = OK (b - sec_of cs).
 Proof.
   intros V I Hb Hd.
-  pose proof (difference_refines_lemma 0 (cos b) cs ltac:(lia) (valid_cos b) V eq_refl eq_refl
+  pose proof (difference_refines_lemma 0 (cos b) cs ltac:(lia) (valid_cos b) V (align0 _) (align0 _)
                 (year_ok b Hb) I) as P.
-  cbn [ord_spec] in P. rewrite sec_of_cos in P. apply P. exact Hd.
+  rewrite !ord0, sec_of_cos in P. apply P. exact Hd.
 Qed.
 
 Lemma lt_l cs b : valid_fields cs = true -> lt64 cs (cos b) = (sec_of cs <? b).
